@@ -1,4 +1,5 @@
 import RsslVerif.Model.SourceMap
+import RsslVerif.Gen.SourceMapTables
 /-!
 # Model of `TokenStream::read_to_end` and `prepare_tokens` over an abstract lexer
 
@@ -91,5 +92,43 @@ def Spanned.shift {τ : Type} (d : Nat) (t : Spanned τ) : Spanned τ := ⟨t.to
 def relocate (i d : Nat) : Option Nat → Option Nat
   | none => none
   | some l => some (moveOffset i d l)
+
+/-! ### the two places of the macro expander that look at trivia (preprocess/src/preprocess.rs)
+
+`find_single_macro` activates a function-like macro only when `trim_whitespace_start(&tokens[i + 1..])`
+starts with `(`; `apply_single_macro` accepts `NAME()` for a zero-parameter macro only when the single
+argument, after `trim_whitespace`, is empty.  `trim_whitespace_start/_end` skip tokens with
+`is_whitespace()` **except `Endline`** (`Gen.SourceMapTables.trimKeepsEndline`). -/
+
+/-- the token kinds these two checks distinguish -/
+inductive PTok where
+  | whitespace | comment | physicalEndline | endline | leftParen | rightParen | other
+  deriving DecidableEq, Repr
+
+def PTok.isWs : PTok → Bool
+  | .whitespace | .comment | .physicalEndline | .endline => true
+  | _ => false
+
+/-- `trim_whitespace_start` -/
+def trimWhitespaceStart : List PTok → List PTok
+  | [] => []
+  | t :: r =>
+    if t.isWs && !(RsslVerif.Gen.SourceMapTables.trimKeepsEndline && t == .endline) then trimWhitespaceStart r
+    else t :: r
+
+/-- `trim_whitespace_end` -/
+def trimWhitespaceEnd (l : List PTok) : List PTok := (trimWhitespaceStart l.reverse).reverse
+
+/-- `trim_whitespace` -/
+def trimWhitespace (l : List PTok) : List PTok := trimWhitespaceEnd (trimWhitespaceStart l)
+
+/-- `find_single_macro`: is the function-like macro whose name precedes `after` invoked here? -/
+def activatesFunctionMacro (after : List PTok) : Bool :=
+  match trimWhitespaceStart after with
+  | .leftParen :: _ => true
+  | _ => false
+
+/-- `apply_single_macro`, `num_params == 0`: is the single argument `arg` accepted as "no arguments"? -/
+def acceptsEmptyArgument (arg : List PTok) : Bool := (trimWhitespace arg).isEmpty
 
 end RsslVerif.Model.Trivia
